@@ -38,9 +38,9 @@ EXTRA_MODULES = {
     "C07": ["Tie.Plan", "Tie.Subband", "Kernels.InvertFreq", "Kernels.MaskChannels", "Kernels.Subband",
             "Kernels.RemoveZerodm", "Kernels.Downsample2d"],
     "C08": ["Tie.HeaderUpdates"],
-    "C09": ["Tie.Dedisperse", "Tie.Subband", "Kernels.Dedisperse", "Kernels.Subband"],
+    "C09": ["Tie.Dedisperse", "Tie.Subband", "Kernels.Dedisperse", "Kernels.Subband", "Kernels.RollBlock"],
     "C10": ["Tie.Moments"],
-    "C11": ["Tie.Plan", "Tie.Fold"],
+    "C11": ["Tie.Plan", "Tie.Fold", "Kernels.Fold"],
     "C14": ["Kernels.Downsample1d", "Kernels.Downsample2d"],
     "C16": ["Kernels.MaskChannels"],
     "C18": ["Tie.Plan", "Tie.Pfits"],
